@@ -89,7 +89,9 @@ func NewTreePersistent(path string) (*Tree, error) {
 func (t *Tree) reinit() {
 	// Calculate t.nextPage by finding the first node whose pageID is not set.
 	t.nextPage = 1
-	for int(t.nextPage)*pageSize < len(t.data) {
+	// Only look at pages which fit completely in the file: its tail can hold a
+	// partial page, because the usable data starts after the buffer's padding.
+	for (int(t.nextPage)+1)*pageSize <= len(t.data) {
 		n := t.node(t.nextPage)
 		if n.pageID() == 0 {
 			break
